@@ -8,7 +8,7 @@ sys.path.insert(0, HERE)
 from vlib.main import MODULES  # noqa
 
 # properties whose check has passed the integration gate (quiet at 3 seeds, mutants caught)
-READY = ['C01', 'C02', 'C03', 'C04', 'C06', 'C09', 'C11', 'C13', 'C15', 'C16', 'C19', 'C20']
+READY = ['C01', 'C02', 'C03', 'C04', 'C05', 'C06', 'C09', 'C10', 'C11', 'C13', 'C15', 'C16', 'C19', 'C20']
 
 CHECKS = {
     'C01': dict(cat='fault_enumeration', ref='3 C01',
@@ -80,7 +80,8 @@ CHECKS = {
     'C11': dict(cat='exploration', ref='3 C11',
                 text='Histories of cd/env/timeout/def interleaved with probes over all phases; reference state '
                      'machine predicts the environment and cwd each probe sees.',
-                note='Timeout persistence is covered by C19.',
+                note='Sub-check timeout_persists enumerates places of a later process x other settings made between '
+                     'the timeout instruction and the use (cell builder and wall-clock margins shared with C19).',
                 technique='Hypothesis history generation, reference state machine'),
     'C12': dict(cat='exploration', ref='3 C12',
                 text='Relativity options x suffix shapes x path-symbol chains x use sites x phases; resolved path vs '
@@ -122,7 +123,8 @@ CHECKS = {
                 note='',
                 technique='grammar-based mutation fuzzing (Hypothesis; atheris in thorough)'),
     'C19': dict(cat='exploration', ref='3 C19',
-                text='Every place a process can start x child behaviour x timeout history, run as sub-processes '
+                text='Every place a process can start x child behaviour x timeout history x other settings made in '
+                     '[setup] (env with/without -of, cd, stdin), run in-process (thorough: also as sub-processes) '
                      'with wall-clock margins; HARD_ERROR in the right phase, child dead, cleanup ran, sandbox gone.',
                 note='Wall clock: wide margins, inconclusive outcome instead of violation in the margin.',
                 technique='enumerated place x schedule matrix with probe children'),
